@@ -38,6 +38,7 @@ func C10(c *core.Ctx) {
 			break
 		}
 	}
+	c10sched(c)
 }
 
 func init() { core.Register("C10", C10) }
